@@ -22,6 +22,7 @@ type Case struct {
 	px.ProgCase
 	Seed   int64
 	Passes int
+	Via    string `json:",omitempty"` // "" TransformPasses | "transform" Transform called directly | "generator" Generator.Gen
 }
 
 func behaviour(r *sb.RunResult) string {
@@ -105,7 +106,7 @@ func checkVariants(c Case) *pk.Failure {
 		return nil
 	}
 	// transform
-	treq := &sb.Request{Op: "transform", Modules: c.Modules, Entry: c.Entry, Seed: c.Seed, Passes: c.Passes}
+	treq := &sb.Request{Op: "transform", Modules: c.Modules, Entry: c.Entry, Seed: c.Seed, Passes: c.Passes, Via: c.Via}
 	tr := px.Pool().Exec(treq)
 	if f := px.SandboxFailure("variants", tr); f != nil {
 		f.Sig = "transformer " + f.Sig
@@ -180,6 +181,8 @@ func TestGenerated(t *testing.T) {
 			seed = seeds[rapid.IntRange(0, len(seeds)-1).Draw(rt, "seedIdx")]
 		}
 		c := Case{ProgCase: px.FromGenerated(g), Seed: seed, Passes: rapid.IntRange(1, 4).Draw(rt, "passes")}
+		c.Via = []string{"", "", "transform", "generator"}[rapid.IntRange(0, 3).Draw(rt, "via")]
+		pk.Class("via:" + c.Via)
 		pk.NonTrivial(px.ProgText(c.ProgCase)+fmt.Sprint(seed, c.Passes), map[string]any{"program": c.Modules["main"], "seed": seed, "passes": c.Passes})
 		pk.Judge(rt, c, checkVariants(c))
 	})
@@ -209,13 +212,15 @@ func TestTableExamples(t *testing.T) {
 				mods[strings.TrimSuffix(filepath.Base(g), ".hms")] = string(gb)
 			}
 		}
-		for _, seed := range []int64{0, 1, 2, 3, 42, -7, 9223372036854775807, -9223372036854775808} {
+		for si, seed := range []int64{0, 1, 2, 3, 42, -7, 9223372036854775807, -9223372036854775808} {
 			for _, passes := range []int{1, 2, 3, 4} {
 				k++
 				if !pk.Mine(k) {
 					continue
 				}
 				c := Case{ProgCase: px.ProgCase{Modules: mods, Entry: name, Limits: sb.Limits{Call: 2048, Stack: 5000, Mem: 100000, TreeCall: 2048}, Note: f}, Seed: seed, Passes: passes}
+				c.Via = []string{"", "transform", "", "generator"}[si%4]
+				pk.Class("via:" + c.Via)
 				pk.Eval()
 				fl := checkVariants(c)
 				if fl != nil {
